@@ -164,11 +164,11 @@ Lemma first_byte p l b r : l = b :: r -> slice m p (List.length l) = l -> m p = 
 Proof. intros -> H. cbn [List.length] in H. rewrite slice_S in H. now injection H. Qed.
 
 (* ---- tokens through the dispatcher ---- *)
-Lemma rv_keyword_node f s nm : is_ok s = true -> nm <> [] -> forallb identb nm = true ->
+Lemma rv_keyword_full f s nm : is_ok s = true -> nm <> [] -> forallb identb nm = true ->
   let l := ":"%byte :: nm in
   cur s + N.of_nat (List.length l) <= e -> slice m (cur s) (List.length l) = l -> follow (cur s + N.of_nat (List.length l)) ->
-  exists s', RV (S f) s = Ret (Some (mk (VKeyword None nm) (cur s) (cur s + 1 + N.of_nat (List.length nm)))) s' /\
-             cur s' = cur s + N.of_nat (List.length l) /\ is_ok s' = true /\ depth s' = depth s.
+  RV (S f) s = Ret (Some (mk (VKeyword None nm) (cur s) (cur s + 1 + N.of_nat (List.length nm))))
+                   (leave (with_cur (with_start (enter s) (cur s)) (cur s + 1 + N.of_nat (List.length nm)))).
 Proof.
   intros Hok Hne Hid l Hle Hsl Hf. unfold l in *. clear l.
   assert (Hb : m (cur s) = ":"%byte) by (apply (first_byte _ (":"%byte :: nm) _ nm eq_refl Hsl)).
@@ -182,7 +182,16 @@ Proof.
   usecls Hn 0%nat; usecls Hn 1%nat; usecls Hn 2%nat; usecls Hn 3%nat; usecls Hn 4%nat; usecls Hn 5%nat; usecls Hn 6%nat; usecls Hn 7%nat; usecls Hn 8%nat.
   rewrite Hmeta.
   rewrite (read_keyword_plain m e (with_start (enter s) (cur s)) nm Hne Hid) by (apply stands_of_follow; assumption).
-  eexists. split; [reflexivity|]. cbn. repeat split; try assumption. cbn [List.length] in *. lia.
+  reflexivity.
+Qed.
+Lemma rv_keyword_node f s nm : is_ok s = true -> nm <> [] -> forallb identb nm = true ->
+  let l := ":"%byte :: nm in
+  cur s + N.of_nat (List.length l) <= e -> slice m (cur s) (List.length l) = l -> follow (cur s + N.of_nat (List.length l)) ->
+  exists s', RV (S f) s = Ret (Some (mk (VKeyword None nm) (cur s) (cur s + 1 + N.of_nat (List.length nm)))) s' /\
+             cur s' = cur s + N.of_nat (List.length l) /\ is_ok s' = true /\ depth s' = depth s.
+Proof.
+  intros Hok Hne Hid l Hle Hsl Hf. rewrite (rv_keyword_full f s nm Hok Hne Hid Hle Hsl Hf).
+  eexists. split; [reflexivity|]. cbn. repeat split; try assumption. unfold l. cbn [List.length]. lia.
 Qed.
 Lemma rv_keyword f s nm : is_ok s = true -> nm <> [] -> forallb identb nm = true ->
   let l := ":"%byte :: nm in
@@ -193,12 +202,12 @@ Proof.
   rewrite Hr. eexists. exists s'. split; [reflexivity|]. split; [constructor; reflexivity|]. repeat split; assumption.
 Qed.
 
-Lemma rv_int_node f s (neg : bool) (ds : list byte) : is_ok s = true -> ds <> [] -> forallb is_dig ds = true ->
+Lemma rv_int_full f s (neg : bool) (ds : list byte) : is_ok s = true -> ds <> [] -> forallb is_dig ds = true ->
   (List.hd "0"%byte ds <> "0"%byte \/ ds = ["0"%byte]) ->
   let l := (if neg then ["-"%byte] else []) ++ ds in
   cur s + N.of_nat (List.length l) <= e -> slice m (cur s) (List.length l) = l -> follow (cur s + N.of_nat (List.length l)) ->
-  exists s', RV (S f) s = Ret (Some (mk (int_literal_value c neg ds) (cur s) (cur s + N.of_nat (List.length l)))) s' /\
-             cur s' = cur s + N.of_nat (List.length l) /\ is_ok s' = true /\ depth s' = depth s.
+  RV (S f) s = Ret (Some (mk (int_literal_value c neg ds) (cur s) (cur s + N.of_nat (List.length l))))
+                   (leave (with_cur (with_start (enter s) (cur s)) (cur s + N.of_nat (List.length l)))).
 Proof.
   intros Hok Hne Hdig Hlead l Hle Hsl Hf.
   destruct ds as [|d0 ds']; [congruence|].
@@ -221,7 +230,7 @@ Proof.
     change (Scan.is_digit d0) with (is_dig d0). rewrite Hd0. cbn [andb].
     rewrite (read_number_tok_decimal_integer c m e (with_start (enter s) (cur s)) true ["-"%byte] (d0 :: ds') Hsign ltac:(discriminate) Hdig Hlead)
       by (cbn [cur with_start enter app List.length]; assumption).
-    eexists. split; [reflexivity|]. cbn. repeat split; try assumption; reflexivity.
+    reflexivity.
   - (* digits *)
     unfold l in *. cbn [app] in *. cbn [List.length] in Hle, Hsl, Hf.
     assert (Hb : m (cur s) = d0) by (rewrite slice_S in Hsl; now injection Hsl).
@@ -234,9 +243,19 @@ Proof.
     usecls Hn 0%nat; usecls Hn 1%nat; usecls Hn 2%nat; usecls Hn 3%nat; usecls Hn 4%nat; usecls Hn 5%nat; usecls Hn 6%nat. rewrite Hdc.
     rewrite (read_number_tok_decimal_integer c m e (with_start (enter s) (cur s)) false [] (d0 :: ds') Hsign ltac:(discriminate) Hdig Hlead)
       by (cbn [cur with_start enter app List.length]; assumption).
-    eexists. split; [reflexivity|]. cbn. repeat split; try assumption; reflexivity.
+    reflexivity.
 Qed.
 
+Lemma rv_int_node f s (neg : bool) (ds : list byte) : is_ok s = true -> ds <> [] -> forallb is_dig ds = true ->
+  (List.hd "0"%byte ds <> "0"%byte \/ ds = ["0"%byte]) ->
+  let l := (if neg then ["-"%byte] else []) ++ ds in
+  cur s + N.of_nat (List.length l) <= e -> slice m (cur s) (List.length l) = l -> follow (cur s + N.of_nat (List.length l)) ->
+  exists s', RV (S f) s = Ret (Some (mk (int_literal_value c neg ds) (cur s) (cur s + N.of_nat (List.length l)))) s' /\
+             cur s' = cur s + N.of_nat (List.length l) /\ is_ok s' = true /\ depth s' = depth s.
+Proof.
+  intros Hok Hne Hdig Hlead l Hle Hsl Hf. rewrite (rv_int_full f s neg ds Hok Hne Hdig Hlead Hle Hsl Hf).
+  eexists. split; [reflexivity|]. cbn. repeat split; assumption.
+Qed.
 Lemma rv_int f s (neg : bool) (ds : list byte) : is_ok s = true -> ds <> [] -> forallb is_dig ds = true ->
   (List.hd "0"%byte ds <> "0"%byte \/ ds = ["0"%byte]) ->
   let l := (if neg then ["-"%byte] else []) ++ ds in
@@ -248,8 +267,8 @@ Proof.
 Qed.
 
 (* a closing delimiter inside a collection ends the element loop: NULL without an error, cursor unmoved *)
-Lemma rv_closer f s b : is_ok s = true -> depth s <> 0 -> cur s < e -> m (cur s) = b -> (b = "]"%byte \/ b = ")"%byte) ->
-  exists s', RV (S f) s = Ret None s' /\ cur s' = cur s /\ is_ok s' = true /\ depth s' = depth s.
+Lemma rv_closer_full f s b : is_ok s = true -> depth s <> 0 -> cur s < e -> m (cur s) = b -> (b = "]"%byte \/ b = ")"%byte) ->
+  RV (S f) s = Ret None (leave (with_start (enter s) (cur s))).
 Proof.
   intros Hok Hd Hlt Hb Hbb.
   destruct classes as (_ & _ & _ & _ & _ & (Hc1 & Hn1) & (Hc2 & Hn2)).
@@ -262,6 +281,12 @@ Proof.
   usecls Hn 0%nat; usecls Hn 1%nat; usecls Hn 2%nat; usecls Hn 3%nat; usecls Hn 4%nat; usecls Hn 5%nat; usecls Hn 6%nat; usecls Hn 7%nat.
   rewrite Hdc. cbn [depth with_start enter].
   replace (depth s =? 0) with false by (symmetry; now apply N.eqb_neq).
+  reflexivity.
+Qed.
+Lemma rv_closer f s b : is_ok s = true -> depth s <> 0 -> cur s < e -> m (cur s) = b -> (b = "]"%byte \/ b = ")"%byte) ->
+  exists s', RV (S f) s = Ret None s' /\ cur s' = cur s /\ is_ok s' = true /\ depth s' = depth s.
+Proof.
+  intros Hok Hd Hlt Hb Hbb. rewrite (rv_closer_full f s b Hok Hd Hlt Hb Hbb).
   eexists. split; [reflexivity|]. cbn. repeat split; assumption.
 Qed.
 
